@@ -70,8 +70,8 @@ def generate(L):
             raise L.GenError(f"parser: header handling changed, `{n}` not found")
     reads_filename = True
     up = L.find_fn(L.read_src("src/utils.rs"), "unescape_git_path", "src/utils.rs")
-    if "if !path.starts_with('\"') || !path.ends_with('\"') {" not in up or "return path.to_string();" not in up \
-            or "&path[1..path.len() - 1]" not in up:
+    if "if path.len() < 2 || !path.starts_with('\"') || !path.ends_with('\"') {" not in up \
+            or "return path.to_string();" not in up or "&path[1..path.len() - 1]" not in up:
         raise L.GenError("utils::unescape_git_path: the unquoted-path branch / slice changed")
 
     ov = L.find_fn(src, "overlay_ai_authorship", rel)
